@@ -336,3 +336,58 @@ type FnHolder struct{ f func(int) int }
 
 func (h *FnHolder) GoodDyn(x int) int { return h.f(x) }
 func (h *FnHolder) BadDyn(x int) int  { return h.f(x) }
+
+// ---- non-escaping locals survive a call that may modify everything; escaped ones do not
+
+type opaqueCaller interface{ Do() }
+
+type pair struct{ a, b int }
+
+var sink *pair
+
+func GoodPrivateLocal(o opaqueCaller, x int) int {
+	var p pair
+	p.a = x
+	q := &p.b
+	*q = 7
+	o.Do()
+	return p.a + p.b
+}
+
+func BadEscapedLocal(o opaqueCaller, x int) int {
+	var p pair
+	p.a = x
+	sink = &p
+	o.Do()
+	return p.a
+}
+
+// ---- a callee's writes to objects it allocates itself do not disturb the caller's objects of that type
+
+func makePair(x int) pair {
+	var q pair
+	q.a = x
+	q.b = x + 1
+	return q
+}
+
+//go:noinline
+func GoodFreshWrites(p *pair, x int) int {
+	p.a = 5
+	r := makePairNoContract(x)
+	return p.a + r.a - r.a
+}
+
+func makePairNoContract(x int) *pair {
+	q := &pair{}
+	q.a = x
+	return q
+}
+
+func BadSharedWrite(p *pair, q *pair) int {
+	p.a = 5
+	clobber(q)
+	return p.a
+}
+
+func clobber(q *pair) { q.a = 9 }
